@@ -100,7 +100,14 @@ class C15(Check):
                "names": rng.choice(NAME_STYLES),
                "perm_seed": rng.randrange(1 << 30),
                "lower_code": rng.random() < 0.2,
+               # slices of one stack stored with different pixel types
+               "mixed_pix": kind != "rgb" and rng.random() < 0.15,
+               # library use: the same file-name lists converted twice (into
+               # two datasets) by the public slices_to_raw_chunks()
+               "api_twice": rng.random() < 0.15,
                "salt": rng.randrange(100)}
+        if scn["mixed_pix"] and scn["out"] == "uint8":
+            scn["out"] = "uint16"
         return {"scenario": scn}
 
     # ------------------------------------------------------------------
@@ -114,8 +121,10 @@ class C15(Check):
         if scn["kind"] == "rgb":
             v = np.stack([(base + 11 * k) % 251 for k in range(3)], axis=-1)
             return v.astype(np.uint8)
-        if scn["pix"] == "uint16":
+        if scn["pix"] == "uint16" and not scn.get("mixed_pix"):
             return ((base * 257) % 65521).astype(np.uint16)
+        if scn["pix"] == "uint16":
+            return (base % 251).astype(np.uint16)
         return (base % 251).astype(np.uint8)
 
     def execute(self, trace):
@@ -154,7 +163,13 @@ class C15(Check):
             # slice i of the stack is the file that sorts i-th; files are
             # created in an unrelated (reverse-numeric) order
             for i in reversed(range(ns)):
-                PIL.Image.fromarray(st[i]).save(os.path.join(dpath, order[i]))
+                img = st[i]
+                if scn.get("mixed_pix") and (i * 7 + d) % 3 == 0:
+                    # same numbers, other pixel type
+                    img = img.astype(np.uint16 if img.dtype == np.uint8
+                                     else np.uint8) if int(
+                                         img.max()) < 256 else img
+                PIL.Image.fromarray(img).save(os.path.join(dpath, order[i]))
             prng = random.Random(scn["perm_seed"] + d)
 
             def perm(lst, prng=prng):
@@ -210,9 +225,28 @@ class C15(Check):
         log.add("ARGV", argv)
         real_argv = [dirs[int(a[3:])] if a.startswith("DIR") else a
                      for a in argv]
+        api = bool(scn.get("api_twice"))
+        DS2 = "/simfs/ds2"
+        if api:
+            fs.dirs[DS2] = True
+            fs.put(DS2 + "/info", dsutil.info_bytes(info))
+
+            def twice():
+                from pathlib import Path
+                lists = [sorted(Path(d_).iterdir()) for d_ in dirs]
+                opts = {"flat": scn["dest"] == "flat",
+                        "gzip": scn["dest"] == "gz"}
+                slices_to_precomputed.slices_to_raw_chunks(
+                    lists, DS, code, options=opts)
+                slices_to_precomputed.slices_to_raw_chunks(
+                    lists, DS2, code, options=opts)
+            res.probe("api_twice")
         with mounted(fs):
-            pr = simproc.run_process(slices_to_precomputed.main, real_argv,
-                                     fs=fs)
+            if api:
+                pr = simproc.run_process(twice, fs=fs)
+            else:
+                pr = simproc.run_process(slices_to_precomputed.main,
+                                         real_argv, fs=fs)
             log.add("EXIT", pr.status, pr.exc, pr.handler_errors)
             slice_axis_rev = code[2] not in POSITIVE
             depth = scn["chunk"][AXIS[code[2]]]
@@ -232,7 +266,10 @@ class C15(Check):
                     key=f"C15/conversion-fails/{pr.exc}/"
                     f"{'slice-axis-reversed' if slice_axis_rev else 'fwd'}")
             else:
-                data = dsutil.read_dataset(DS, info)
+              for root_ in ([DS, DS2] if api else [DS]):
+                if res.violations:
+                    break
+                data = dsutil.read_dataset(root_, info)
                 vol = np.zeros_like(ref)
                 for (key, co), g in sorted(data.items(),
                                            key=lambda kv: kv[0]):
@@ -291,7 +328,8 @@ class C15(Check):
         scn = trace["scenario"]
         for k, simple in (("kind", "grey"), ("dest", "flat"),
                           ("names", "plain"), ("pix", "uint8"),
-                          ("lower_code", False)):
+                          ("lower_code", False), ("mixed_pix", False),
+                          ("api_twice", False)):
             if scn[k] != simple:
                 s2 = dict(scn, **{k: simple})
                 if k == "kind":
